@@ -258,6 +258,25 @@ func verifConformsObject(o *schema.ObjectSchema, data any) bool {
 			if _, ok := v.(int64); !ok {
 				return false
 			}
+		case schema.TypeIDMap:
+			// the serialized form of a map with integer keys has int64 keys (that is what the expression
+			// language indexes with); with string keys, strings
+			if ms, ok := p.Type().(interface{ Keys() schema.Type }); ok {
+				switch ms.Keys().TypeID() {
+				case schema.TypeIDInt:
+					switch v.(type) {
+					case map[int64]any, map[int64]string, map[any]any:
+					default:
+						return false
+					}
+				case schema.TypeIDString:
+					switch v.(type) {
+					case map[string]any, map[string]string, map[any]any:
+					default:
+						return false
+					}
+				}
+			}
 		}
 	}
 	return true
